@@ -67,6 +67,11 @@ def run(ctx):
     c10._grid_site(_Quiet(ctx), m, gates)
     _agree(ctx, gates)
     _closure(ctx, m)
+    # transcoding keeps the version: both writers put the grid's own version in the header and thread it down
+    from . import _zinc
+    for modname in ('zincdumper', 'jsondumper'):
+        _zinc.header_version(ctx, 'C07.D3', modname)
+        _zinc.version_threading(ctx, 'C07.D3', modname)
 
 
 class _Quiet(object):
